@@ -93,7 +93,19 @@ fn buffered_free(cap: usize, k: usize) -> (i64, i64, bool) {
 /// (partly consumed) while the panicking one is alive, as `TrainLoader::init_iter` does when it
 /// replaces its iterator. 2: "other loader" — an older pipe is drained to its end and dropped
 /// before the younger one reaches the panicking item. 3: a younger pipe is created and dropped
-/// before the older one panics.
+/// before the older one panics. 4: a pipe is drained, then `train_bpe` runs (the other place of the crate
+/// that installs a process-wide panic hook — a print-only one), then a new pipe panics. 5: `train_bpe`
+/// runs first, then a pipe panics.
+fn run_train_bpe() {
+    let dir = std::env::temp_dir().join(format!("verif-c09-bpe-{}", std::process::id()));
+    let _ = std::fs::create_dir_all(&dir);
+    let f = dir.join("corpus.txt");
+    let _ = std::fs::write(&f, "ab ab abc\nab c\n");
+    let out = dir.join("merges");
+    let _ = text_utils::tokenization::train_bpe(&[f], 320, 0, &out, None, None, 2, false);
+    let _ = std::fs::remove_dir_all(&dir);
+}
+
 fn child_panic(w: usize, n: usize, p: usize, scenario: usize) -> ! {
     let mk = |panic_at: Option<usize>| {
         let pipeline: text_utils::data::Pipeline<usize, usize> = Arc::new(move |x| {
@@ -128,6 +140,19 @@ fn child_panic(w: usize, n: usize, p: usize, scenario: usize) -> ! {
             let young = mk(None);
             drop(young);
             for _ in old {
+                c += 1;
+            }
+        }
+        4 => {
+            for _ in mk(None) {}
+            run_train_bpe();
+            for _ in mk(Some(p)) {
+                c += 1;
+            }
+        }
+        5 => {
+            run_train_bpe();
+            for _ in mk(Some(p)) {
                 c += 1;
             }
         }
@@ -217,7 +242,7 @@ impl Prop for C09 {
                 let w = rng.range(0, 4);
                 let p = rng.range(0, n.max(1) - 1) as i64;
                 // the capacity field selects the pipe-lifecycle scenario of the child
-                Val::L(vec![Val::I(2), Val::L(xs), Val::u(w), Val::L(vec![]), Val::I(p), Val::u(rng.below(4))])
+                Val::L(vec![Val::I(2), Val::L(xs), Val::u(w), Val::L(vec![]), Val::I(p), Val::u(rng.below(6))])
             }
             3 => {
                 let w = rng.range(0, 4);
